@@ -641,6 +641,10 @@ fn gen_rt(rng: &mut Rng, n: usize, clock: &mut Clock, bias: u64, seen: &mut [boo
 struct Balances {
     clock: i64,
     level: Vec<i64>,
+    /// lowest level the walk may reach: 10 (rarely 0) in the ordinary classes; negative in the
+    /// `zero-peak` class, whose curves START at a total <= 0 (outside C18's documented domain: the
+    /// oracle is silent on their drawdown fields, model and code are compared on them)
+    floor: Option<i64>,
 }
 
 impl Balances {
@@ -656,7 +660,11 @@ impl Balances {
             }
         };
         let step = *rng.pick(&[-30i64, -20, -10, -10, 0, 10, 10, 20, 40]);
-        self.level[a] = (self.level[a] + step).max(if rng.chance(3) { 0 } else { 10 });
+        let floor = match self.floor {
+            Some(f) => f,
+            None => if rng.chance(3) { 0 } else { 10 },
+        };
+        self.level[a] = (self.level[a] + step).max(floor);
         let total = self.level[a];
         let free = rng.range(0, total.max(1));
         format!("{a} {t} {} {}", dec_str(total, 0), dec_str(free * 10, 1))
@@ -718,6 +726,23 @@ fn fixed_vectors(out: &mut Out) {
     out.line("pos 0 259200000 20 100 1");
     out.line("gen A365");
     out.line("peek A252");
+    // an asset whose first total is not positive (theorem `asset_zero_peak_witness`): the drawdown is
+    // measured from the first positive peak
+    out.case("w-zero-peak-engine");
+    out.line("init 1 2 engine 0");
+    out.line("bal 0 0 0 0");
+    out.line("bal 0 10 -5 -5");
+    out.line("bal 0 20 10 10");
+    out.line("bal 0 30 5 5");
+    out.line("gen D");
+    out.case("w-zero-peak-direct");
+    out.line("init 1 2 direct 0");
+    out.line("bal 0 0 0 0");
+    out.line("bal 0 10 -5 -5");
+    out.line("gen D");
+    out.line("bal 0 20 10 10");
+    out.line("bal 0 30 5 5");
+    out.line("gen D");
     out.case("w-instrument-engine");
     out.line("init 2 4 engine 0.0015");
     out.line("rt 0 B 100 1 110 0 0 0 86400000");
@@ -751,9 +776,20 @@ fn random_case(rng: &mut Rng, out: &mut Out, tier: &str) {
         whole: !rng.chance(25),
         now: vec![0; n],
     };
-    let mut balances = Balances {
-        clock: 0,
-        level: (0..m).map(|_| *rng.pick(&[50i64, 100, 100, 200])).collect(),
+    // 8 %: the `zero-peak` class - balances that start at zero or below (and may stay negative)
+    let zero_peak = rng.chance(8);
+    let mut balances = if zero_peak {
+        Balances {
+            clock: 0,
+            level: (0..m).map(|_| *rng.pick(&[0i64, 0, -10, -30, 20])).collect(),
+            floor: Some(-40),
+        }
+    } else {
+        Balances {
+            clock: 0,
+            level: (0..m).map(|_| *rng.pick(&[50i64, 100, 100, 200])).collect(),
+            floor: None,
+        }
     };
     let mut seen = vec![false; n];
     for _ in 0..len {
@@ -808,8 +844,12 @@ fn generate(seed: u64, n_cases: usize, tier: &str) {
     if tier == "thorough" {
         // small scope, exhaustive: one asset, every sequence of length <= 4 over
         // {four levels at the next time, one level at a STALE time, a summary request}, on both paths
-        let syms = ["L100", "L90", "L110", "L80", "stale", "gen"];
-        for mode in ["engine", "direct"] {
+        // second alphabet (the `zero-peak` class): totals 0, -5, 10, 5 - curves that start at or below zero
+        let alphabets: [&[&str]; 2] = [
+            &["L100", "L90", "L110", "L80", "stale", "gen"],
+            &["L0", "L-5", "L10", "L5", "gen"],
+        ];
+        for (syms, mode) in alphabets.iter().flat_map(|s| [(*s, "engine"), (*s, "direct")]) {
             for len in 1..=4usize {
                 let total = syms.len().pow(len as u32);
                 for mut code in 0..total {
